@@ -213,6 +213,21 @@ CHECKS["C17"] = dict(
          "not walked. Interleavings are explored on the model, not by racing real threads.",
     technique="TLC over all interleavings of non-atomic refcount updates, instantiated with the ownership graph observed through a hook")
 
+CHECKS["C13"] = dict(
+    category="model_checking",
+    text="Fmt.tla states the operator grammar where layout decisions are semantic (13 binary operators on 5 precedence levels with their "
+         "associativity, prefix operators, n-ary pipelines, parentheses leave no node) with two printers (fewest parentheses, all "
+         "parentheses) and a precedence-climbing parser; TLC checks that the parser inverts both printers on every tree of the bound. "
+         "Each tree is replayed: the real parser must read both renderings as the tree, the real formatter's output must be read as the "
+         "tree again and formatting twice must change nothing. Beyond the fragment: the 167 shipped .ak files and seeded modules over the "
+         "surface grammar go through parse -> format -> parse with syntax trees compared after erasing positions, comments and doc "
+         "comments compared in order, and idempotence.",
+    design_ref="DESIGN.md section 6 C13",
+    note="Only the operator / pipeline fragment has a TLA+ statement; records, patterns, definitions, literals, comments are covered by "
+         "the round trip alone. Tree equality is modulo four layout-only differences listed in the evidence assumptions. Four recorded "
+         "known findings are excluded from the generator and re-run as fixed reproducers.",
+    technique="TLA+ operator grammar with printers and parser checked by TLC, every tree replayed through the real parser and formatter; round trip on corpus and generated modules")
+
 CHECKS["C15"] = dict(
     category="model_checking",
     text="UplcText.tla states the concrete syntax (the table of built-in names, type and constant syntax, Data syntax, string escapes) "
